@@ -798,6 +798,10 @@ impl RLN {
         // [ proof<128> | root<32> | external_nullifier<32> | x<32> | y<32> | nullifier<32> ]
         let mut input_byte: Vec<u8> = Vec::new();
         input_data.read_to_end(&mut input_byte)?;
+        // The input must contain at least the compressed proof and the five proof values
+        if input_byte.len() < 128 + 5 * fr_byte_size() {
+            return Err(Report::msg("input data is too short"));
+        }
         let proof = ArkProof::deserialize_compressed(&mut Cursor::new(&input_byte[..128]))?;
 
         let (proof_values, _) = deserialize_proof_values(&input_byte[128..]);
@@ -956,6 +960,10 @@ impl RLN {
     pub fn verify_rln_proof<R: Read>(&self, mut input_data: R) -> Result<bool> {
         let mut serialized: Vec<u8> = Vec::new();
         input_data.read_to_end(&mut serialized)?;
+        // The input must contain at least the compressed proof, the five proof values and the signal length
+        if serialized.len() < 128 + 5 * fr_byte_size() + 8 {
+            return Err(Report::msg("input data is too short"));
+        }
         let mut all_read = 0;
         let proof =
             ArkProof::deserialize_compressed(&mut Cursor::new(&serialized[..128].to_vec()))?;
@@ -968,6 +976,10 @@ impl RLN {
         ))?;
         all_read += 8;
 
+        // The declared signal length must not exceed the bytes that follow it
+        if signal_len > serialized.len() - all_read {
+            return Err(Report::msg("signal length exceeds input data"));
+        }
         let signal: Vec<u8> = serialized[all_read..all_read + signal_len].to_vec();
 
         let verified = verify_proof(&self.verification_key, &proof, &proof_values)?;
@@ -1031,6 +1043,10 @@ impl RLN {
     pub fn verify_with_roots<R: Read>(&self, mut input_data: R, mut roots_data: R) -> Result<bool> {
         let mut serialized: Vec<u8> = Vec::new();
         input_data.read_to_end(&mut serialized)?;
+        // The input must contain at least the compressed proof, the five proof values and the signal length
+        if serialized.len() < 128 + 5 * fr_byte_size() + 8 {
+            return Err(Report::msg("input data is too short"));
+        }
         let mut all_read = 0;
         let proof =
             ArkProof::deserialize_compressed(&mut Cursor::new(&serialized[..128].to_vec()))?;
@@ -1043,6 +1059,10 @@ impl RLN {
         ))?;
         all_read += 8;
 
+        // The declared signal length must not exceed the bytes that follow it
+        if signal_len > serialized.len() - all_read {
+            return Err(Report::msg("signal length exceeds input data"));
+        }
         let signal: Vec<u8> = serialized[all_read..all_read + signal_len].to_vec();
 
         let verified = verify_proof(&self.verification_key, &proof, &proof_values)?;
@@ -1278,12 +1298,19 @@ impl RLN {
         // We serialize_compressed the two proofs, and we get the corresponding RLNProofValues objects
         let mut serialized: Vec<u8> = Vec::new();
         input_proof_data_1.read_to_end(&mut serialized)?;
+        // The input must contain at least the compressed proof and the five proof values
+        if serialized.len() < 128 + 5 * fr_byte_size() {
+            return Err(Report::msg("input proof data 1 is too short"));
+        }
         // We skip deserialization of the zk-proof at the beginning
         let (proof_values_1, _) = deserialize_proof_values(&serialized[128..]);
         let external_nullifier_1 = proof_values_1.external_nullifier;
 
         let mut serialized: Vec<u8> = Vec::new();
         input_proof_data_2.read_to_end(&mut serialized)?;
+        if serialized.len() < 128 + 5 * fr_byte_size() {
+            return Err(Report::msg("input proof data 2 is too short"));
+        }
         // We skip deserialization of the zk-proof at the beginning
         let (proof_values_2, _) = deserialize_proof_values(&serialized[128..]);
         let external_nullifier_2 = proof_values_2.external_nullifier;
